@@ -491,3 +491,89 @@ func RequireFacts(c *Ctx, p *Program, rule string, fn *ssa.Function, kind Accept
 		c.Ob(rule, pkg, fk, r.Name, pos, ok, msg, witness...)
 	}
 }
+
+// RequireDNF: every accepting return must satisfy at least one alternative; an alternative is
+// a conjunction of requirements, each decided for that return by edge deletion. One obligation
+// (name) per function; the witness names the return and the alternatives' missing facts.
+func RequireDNF(c *Ctx, p *Program, rule string, fn *ssa.Function, kind AcceptKind, assume []string, name string, alts [][]Req) {
+	pkg, fk := relPkg(fnPkgPath(fn)), funcKey(fn)
+	c.Instance(rule, 1)
+	acc, err := acceptReturns(fn, kind)
+	if err != nil {
+		c.Undecided("%s %s: %v", rule, fk, err)
+		return
+	}
+	if len(acc) == 0 {
+		c.Ob(rule, pkg, fk, name, p.Pos(fn.Pos()), false, fk+": no accepting return recognised")
+		return
+	}
+	byStmt := stmtEdges(fn)
+	cands := map[string]bool{}
+	for s := range byStmt {
+		cands[s] = true
+	}
+	for _, a := range acc {
+		if d := delegation(a); d != "" {
+			cands[d] = true
+		}
+	}
+	assumed := map[edge]bool{}
+	for _, pat := range assume {
+		re := mustRe(pat)
+		for s := range byStmt {
+			if re.MatchString(s) {
+				for e := range byStmt[s] {
+					assumed[e] = true
+				}
+			}
+		}
+	}
+	// reachable accepts under the assumptions only
+	base := map[edge]bool{}
+	for e := range assumed {
+		base[e] = true
+	}
+	baseSeen := reach(fn, fn.Blocks[0], base)
+	holdsFor := func(a acceptRet, r Req) bool {
+		re := mustRe(r.Pat)
+		stmts := map[string]bool{}
+		for s := range cands {
+			if re.MatchString(s) {
+				stmts[s] = true
+			}
+		}
+		ret, _ := holdsOnAccept(fn, []acceptRet{a}, byStmt, stmts, assumed)
+		return ret == nil
+	}
+	ok := true
+	msg, pos := "", p.Pos(fn.Pos())
+	for _, a := range acc {
+		if !baseSeen[a.ret.Block().Index] {
+			continue // excluded by the assumptions
+		}
+		sat := false
+		var missing []string
+		for _, alt := range alts {
+			all := true
+			var miss []string
+			for _, r := range alt {
+				if !holdsFor(a, r) {
+					all = false
+					miss = append(miss, r.Name)
+				}
+			}
+			if all {
+				sat = true
+				break
+			}
+			missing = append(missing, "{"+strings.Join(miss, ",")+"}")
+		}
+		if !sat {
+			ok = false
+			pos = p.Pos(instrPos(a.ret))
+			msg = fmt.Sprintf("%s: the accepting return at %s is reachable without %s; for each admissible alternative the facts not established are %s", fk, pos, name, strings.Join(missing, " or "))
+			break
+		}
+	}
+	c.Ob(rule, pkg, fk, name, pos, ok, msg)
+}
